@@ -46,7 +46,11 @@ class CallMixin:
         kwargs = {}
         for kw in node.keywords:
             if kw.arg is None:
-                raise Unmodelled("**kwargs call at %s" % frame.loc(node))
+                dv = self.eval(kw.value, frame)
+                if isinstance(dv, DictV):
+                    kwargs.update(dv.items)
+                    continue
+                raise Unmodelled("**kwargs call with a non-literal mapping at %s" % frame.loc(node))
             kwargs[kw.arg] = self.eval(kw.value, frame)
         return self.call_function(fv, args, kwargs, frame, node)
 
